@@ -32,6 +32,10 @@ type HistRun struct {
 	Tweak    func(o *badger.Options)
 	Reopen   bool // close and re-open before resolving/checking
 	AfterRun func(db *badger.DB)
+	// OnStart is called after the DB is open and before the clients start.
+	OnStart func(db *badger.DB, e *hist.Engine)
+	// BeforeResolve is called after the clients finished, before commit timestamps are resolved.
+	BeforeResolve func()
 }
 
 // HistResult is what runHistory returns.
@@ -114,9 +118,15 @@ func runHistory(c *core.Ctx, work string, idx int, hr HistRun) (*HistResult, err
 			}
 		}()
 	}
+	if hr.OnStart != nil {
+		hr.OnStart(db, e)
+	}
 	res.H = e.Run()
 	close(stop)
 	bg.Wait()
+	if hr.BeforeResolve != nil {
+		hr.BeforeResolve()
+	}
 	if pin != nil {
 		pin.Discard()
 	}
@@ -219,3 +229,9 @@ func modelMergeVer(ts uint64, val []byte) model.Ver {
 
 func installShapeHook(sr *shapeRec) { sched.Install(sched.Config{OnEv: sr.onEv}) }
 func uninstallHooks()               { sched.Uninstall() }
+
+type modelVer = model.Ver
+
+func modelVerTok(ts uint64, tok string, n int) model.Ver {
+	return model.Ver{Ts: ts, Token: tok, Len: n}
+}
